@@ -362,6 +362,14 @@ def c06_wd_truncation_unescaped_v27():
     return res, all(w == 'a#b' and s_ != 'a#b' for _, w, s_ in res)
 
 
+@case
+def c15_validate_typeerror_z_subcomponent():
+    txt = 'MSH|^~\\&|A||||20080115153000||ADT^A01^ADT_A01|1|P|2.5\rEVN||20080115\rPID|1||123^^^X||DOE^JOHN\rPV1||I\rZZZ|a|b^c&'
+    m = parse_message(txt, validation_level=VL.TOLERANT)
+    r = raises(HL7apyException, m.validate, return_errors=True)
+    return (r,), r == 'other:TypeError'
+
+
 if __name__ == '__main__':
     names = sys.argv[1:] or sorted(CASES)
     for n in names:
